@@ -1,4 +1,5 @@
 import FatVerif.Proofs.FormatDefault
+import FatVerif.Proofs.FormatBytes
 /-!
 # C06 — formatting yields a valid empty volume (boot-sector / sizing part: C06.1 – C06.4)
 
@@ -18,86 +19,43 @@ def isInvalidInput {α : Type} : Except Err α → Bool
   | .error .invalidInput => true
   | _ => false
 
-/-! ## C06.1 `format_no_panic` — FALSE of the code as it stands; partial + exact panic condition + counterexamples -/
+/-! ## C06.1 `format_no_panic`
 
-/-- Under the builder's constraints formatting can panic in exactly two ways:
-    * `BpcLtBps o` — F11: `bytes_per_cluster < bytes_per_sector` (`sectors_per_cluster = 0`: `attempt to subtract
-      with overflow` / `attempt to divide by zero` in `try_fs_layout`);
-    * `FatBitsOverflow o t` — a FAT32 layout was found whose `sectors_per_fat * bytes_per_sector * 8 ≥ 2^32`
-      (`attempt to multiply with overflow` in `validate_total_clusters`, FAT32 volumes with ≥ 2^27 FAT entries). -/
-theorem format_no_panic_partial (o : FormatOpts) (t : Nat) (hacc : Accepted o) (ht : t < 4294967296)
-    (h11 : ¬ BpcLtBps o) (h20 : ¬ FatBitsOverflow o t) : formatChecked o t ≠ .error .panic := by
-  intro h
-  rcases formatChecked_panic hacc ht h with h | h
-  · exact h11 h
-  · exact h20 h
+History: false of the original code in two ways — F11 (`bytes_per_cluster < bytes_per_sector` ⇒ `sectors_per_cluster = 0`
+⇒ subtraction overflow / ÷0 in `try_fs_layout`) and the `u32` overflow of `sectors_per_fat * bytes_per_sector * 8` in
+`validate_total_clusters` for FAT32 layouts with ≥ 2^27 FAT entries. Both are repaired in /repo (46e44d0, faa778e);
+the model follows the repaired code and the theorem holds at full strength. The former counterexamples are kept as
+regression examples. -/
 
-/-- the second hypothesis is exact: whenever it fails, formatting does panic -/
-theorem format_fat_bits_overflow_panics (o : FormatOpts) (t : Nat) (hacc : Accepted o) (ht : t < 4294967296)
-    (h : FatBitsOverflow o t) : formatChecked o t = .error .panic := by
-  obtain ⟨h4096, L, hL, h32, hov⟩ := h
-  have hbps : o.bps ∈ [512, 1024, 2048, 4096] := by
-    have := hacc.bps
-    simp only [List.mem_cons, List.mem_nil_iff, or_false] at this ⊢
-    omega
-  rw [formatChecked_of_layout hacc ht hbps hL (fun hne => absurd h32 hne) (fun hne => absurd h32 hne),
-    if_neg (by omega)]
+/-- under the builder's constraints, for every sector count, formatting never panics -/
+theorem format_no_panic (o : FormatOpts) (t : Nat) (hacc : Accepted o) (ht : t < 4294967296) :
+    formatChecked o t ≠ .error .panic :=
+  formatChecked_not_panic hacc ht
 
-/-- volumes below 2^27 − 2^10 sectors never trigger the overflow, whatever the options -/
-theorem format_no_panic_small (o : FormatOpts) (t : Nat) (hacc : Accepted o) (ht : t ≤ 134216704)
-    (h11 : ¬ BpcLtBps o) : formatChecked o t ≠ .error .panic := by
-  apply format_no_panic_partial o t hacc (by omega) h11
-  rintro ⟨h4096, L, hL, h32, hov⟩
-  obtain ⟨c, _, hspc, _, hLeq, _, _, _, _⟩ := determineFsLayout_ok_facts hacc (by omega) hL
-  have hspf : L.spf = spfOf t o.bps (c / o.bps) 32 8 0 o.fats := by
-    rw [hLeq]; simp only [h32, FatType.bits, reservedFor, determineRootDirSectors, if_true]
-  rw [hspf] at hov
-  have hb := hacc.bps
-  have hf := hacc.fats
-  simp only [List.mem_cons, List.mem_nil_iff, or_false] at hb hspc
-  have hb4 : o.bps = 512 ∨ o.bps = 1024 ∨ o.bps = 2048 ∨ o.bps = 4096 := by omega
-  generalize c / o.bps = spc at hspc hov
-  generalize o.bps = bps at hb4 hov
-  generalize o.fats = fats at hf hov
-  rcases hb4 with rfl | rfl | rfl | rfl <;>
-  rcases hspc with rfl | rfl | rfl | rfl | rfl | rfl | rfl | rfl <;>
-  rcases hf with rfl | rfl <;>
-  (simp only [spfOf, t2Of] at hov; omega)
-
-/-- F11, the instance of DESIGN.md §7: `bytes_per_sector(4096).bytes_per_cluster(512)` -/
-theorem format_div_zero_counterexample :
-    Accepted { bps := 4096, bpc := some 512 } ∧
-    isPanic (formatChecked { bps := 4096, bpc := some 512 } 100000) = true := by
-  refine ⟨⟨by simp, ?_, Or.inr rfl, by simp⟩, by decide +kernel⟩
-  intro c h; cases h; simp [bpcValues]
-
-/-- new: default sector size, 512-byte clusters, 136 314 757 sectors (65 GiB): the FAT-capacity product overflows;
-    one sector less and it does not -/
-theorem format_fat_bits_overflow_counterexample :
-    Accepted { bpc := some 512 } ∧ isPanic (formatChecked { bpc := some 512 } 136314757) = true ∧
-    isPanic (formatChecked { bpc := some 512 } 136314756) = false := by
-  refine ⟨⟨by simp, ?_, Or.inr rfl, by simp⟩, by decide +kernel, by decide +kernel⟩
-  intro c h; cases h; simp [bpcValues]
-
-/-- …and with nothing but `bytes_per_sector(4096)` on a 4 TiB volume (automatic cluster size 32 KiB) -/
-theorem format_fat_bits_overflow_counterexample_auto :
-    Accepted { bps := 4096 } ∧ isPanic (formatChecked { bps := 4096 } 1073995767) = true ∧
-    isPanic (formatChecked { bps := 4096 } 1073995766) = false := by
-  refine ⟨⟨by simp, ?_, Or.inr rfl, by simp⟩, by decide +kernel, by decide +kernel⟩
-  intro c h; cases h
+/-- …and the library's `validate` never panics on any BPB at all (used for the self-check of `format_volume`) -/
+theorem validate_no_panic (b : FBpb) : validateBpb b ≠ .error .panic :=
+  validateBpb_not_panic b
 
 /-- a non-default request used by the satisfiability examples -/
 def exOpts : FormatOpts := { bps := 1024, bpc := some 4096, fatType := some .fat16, rootEntries := 17, fats := 1 }
 
-example : Accepted exOpts ∧ ¬ BpcLtBps exOpts ∧ ¬ FatBitsOverflow exOpts 100000 := by
-  unfold exOpts
-  refine ⟨⟨by simp, ?_, Or.inl rfl, by simp⟩, ?_, ?_⟩
-  · intro c h; cases h; simp [bpcValues]
-  · rintro ⟨c, h, hlt⟩; cases h; simp at hlt
-  · rintro ⟨_, L, hL, h32, _⟩
-    obtain ⟨_, _, _, _, _, hm, _⟩ := determineFsLayout_ok hL
-    rw [h32] at hm
-    simp [allowedTypes] at hm
+theorem accepted_exOpts : Accepted exOpts := by
+  refine ⟨by simp [exOpts], ?_, Or.inl rfl, by simp [exOpts]⟩
+  intro c h; cases h; simp [bpcValues]
+
+example : Accepted exOpts ∧ (100000 : Nat) < 4294967296 := ⟨accepted_exOpts, by omega⟩
+
+/-- regression (F11, the instance of DESIGN.md §7): `bytes_per_sector(4096).bytes_per_cluster(512)` is now rejected -/
+example : Accepted { bps := 4096, bpc := some 512 } ∧
+    isInvalidInput (formatChecked { bps := 4096, bpc := some 512 } 100000) = true := by
+  refine ⟨⟨by simp, ?_, Or.inr rfl, by simp⟩, by decide +kernel⟩
+  intro c h; cases h; simp [bpcValues]
+
+/-- regression (FAT-capacity overflow): 512-byte clusters on 136 314 757 sectors (65 GiB), and plain
+    `bytes_per_sector(4096)` on a 4 TiB volume, used to panic in `validate`; now they format as FAT32 -/
+example : ((formatChecked { bpc := some 512 } 136314757).toOption.map (·.2)) = some .fat32 ∧
+    ((formatChecked { bps := 4096 } 1073995767).toOption.map (·.2)) = some .fat32 := by
+  constructor <;> decide +kernel
 
 /-! ## C06.2 `format_valid` -/
 
@@ -129,6 +87,38 @@ example : ∃ boot, formatChecked exOpts 100000 = .ok (boot, .fat16) := by
     rw [h] at this; cases this
     obtain ⟨boot, hb, _⟩ := okView_some h
     exact ⟨boot, hb⟩
+
+/-- the same at the level of the 512 bytes the hook returns — exactly what the driver's oracle evaluates on the
+    implementation's bytes: decode with the spec's own decoder, then `ValidBpb` -/
+theorem format_valid_bytes (o : FormatOpts) (t : Nat) (bytes : List Nat) (ft : FatType) (hacc : Accepted o)
+    (hr : InRange o) (ht : t < 4294967296) (h : formatBootSectorBytes o t = .ok (bytes, ft)) :
+    bytes.length = 512 ∧ ValidBpb (decodeBoot bytes) (FormatDriver.requestOf o t) ft.bits := by
+  unfold formatBootSectorBytes at h
+  obtain ⟨⟨boot, ft2⟩, hc, h⟩ := bind_ok_iff.mp h
+  simp only [Except.ok.injEq, Prod.mk.injEq] at h
+  obtain ⟨hbytes, hft⟩ := h
+  subst hft
+  subst hbytes
+  have hv := (format_valid o t boot ft2 hacc ht hc).1
+  obtain ⟨c, _, hspc, hbps, _, _, _, hfacts, hboot, h16, _, _⟩ := formatChecked_ok_layout hacc ht hc
+  have hspf32 : spfOf t o.bps (c / o.bps) ft2.bits (reservedFor ft2)
+      (determineRootDirSectors o.rootEntries o.bps ft2) o.fats < 4294967296 := by unfold spfOf; omega
+  have hb : o.bps < 65536 := by
+    simp only [List.mem_cons, List.mem_nil_iff, or_false] at hbps; omega
+  have hs : c / o.bps < 256 := by
+    simp only [List.mem_cons, List.mem_nil_iff, or_false] at hspc; omega
+  have hf : o.fats < 256 := by have := hacc.fats; omega
+  obtain ⟨hd, hl⟩ := decode_bootOf o t _ (c / o.bps) ft2 hr hb hf hacc.root ht hfacts.1 hspf32 h16 hs
+  rw [← hboot] at hd hl
+  rw [hd]
+  exact ⟨hl, hv⟩
+
+example : Accepted exOpts ∧ InRange exOpts := by
+  refine ⟨⟨by simp [exOpts], ?_, Or.inl rfl, by simp [exOpts]⟩,
+    ⟨by simp [exOpts], by simp [exOpts], by simp [exOpts], ?_, by simp [exOpts], ?_⟩⟩
+  · intro c h; cases h; simp [bpcValues]
+  · intro d h; cases h
+  · intro l h; cases h
 
 /-- "root entries fill whole sectors" is NOT guaranteed by `format_volume` (it is the caller's documented
     responsibility; `validate` only warns): it holds exactly when the request has it -/
@@ -168,6 +158,15 @@ theorem format_rejects (o : FormatOpts) (t : Nat) (e : Err) (h : formatChecked o
 
 example : isInvalidInput (formatChecked { fatType := some .fat32 } 1000) = true := by decide +kernel
 
+/-- conversely, the only ways an accepted request is rejected are: no FAT width is consistent with its own cluster
+    count (`determine_fs_layout` fails), a sector size above 4096, a FAT12/16 layout with zero root entries, or a
+    FAT12/16 table above 65535 sectors; otherwise formatting succeeds with exactly that layout -/
+theorem format_accepts (o : FormatOpts) (t : Nat) (L : FsLayout) (hacc : Accepted o) (ht : t < 4294967296)
+    (hbps : o.bps ∈ [512, 1024, 2048, 4096]) (hL : determineFsLayout o t = .ok L)
+    (hroot : L.fatType ≠ .fat32 → o.rootEntries ≠ 0) (h16 : L.fatType ≠ .fat32 → L.spf ≤ 65535) :
+    formatChecked o t = .ok (bootOf o t L.fatType L.spf L.spc, L.fatType) :=
+  formatChecked_of_layout hacc ht hbps hL hroot h16
+
 /-! ## C06.4 `format_default_total` -/
 
 theorem default_small : ∀ t, t < 42 → isInvalidInput (formatChecked defaultOpts t) = true := by
@@ -186,5 +185,18 @@ theorem format_default_total (t : Nat) (ht : t < 4294967296) :
   · cases this
 
 example : ∃ r, formatChecked defaultOpts 42 = .ok r := (format_default_total 42 (by omega)).1 (by omega)
+
+/-- consequence used by the driver's `format.sweepblock` handler: with default options the failing sizes in
+    `[a, b)` are exactly those below 42 -/
+theorem format_default_fails_iff (t : Nat) (ht : t < 4294967296) :
+    (∀ r, formatChecked defaultOpts t ≠ .ok r) ↔ t < 42 := by
+  obtain ⟨h1, h2⟩ := format_default_total t ht
+  constructor
+  · intro h
+    apply Nat.lt_of_not_le; intro h42
+    obtain ⟨r, hr⟩ := h1 h42
+    exact h r hr
+  · intro h r hr
+    rw [h2 h] at hr; cases hr
 
 end FatVerif.C06
